@@ -9,7 +9,7 @@ from jade.jobs.results_aggregator import ResultsAggregator
 from jade.result import Result
 
 role = sys.argv[1]
-OUT = sys.argv[-1] if len(sys.argv) > (5 if role == "writer" else 4) else "out"
+OUT = sys.argv[-1] if len(sys.argv) > (5 if role in ("writer", "rewriter") else 4) else "out"
 if role == "writer":
     b, w, n = int(sys.argv[2]), int(sys.argv[3]), int(sys.argv[4])
     for i in range(n):
@@ -24,6 +24,22 @@ if role == "writer":
             A.call_event("ret", op="append", row=name, outcome="timeout")
             continue
         A.call_event("ret", op="append", row=name)
+elif role == "rewriter":
+    # second phase (after a resubmission pruned these rows): the rerun jobs' new results; fields differ from the first attempt
+    b, w, names = int(sys.argv[2]), int(sys.argv[3]), [x for x in sys.argv[4].split(",") if x]
+    OUT = sys.argv[5]
+    for i, name in enumerate(names):
+        A.call_event("call", op="append", row=name)
+        r = Result(name, (b + i) % 2, "finished" if i % 4 else "canceled", 2000.5 + i, completion_time=5000.0 + i, hpc_job_id=str(200 + b))
+        ResultsAggregator.append(OUT, r, batch_id=b)
+        A.call_event("ret", op="append", row=name)
+elif role == "pruner":
+    # what `resubmit-jobs` does to the consolidated results while it holds the submitter role and no batch is running
+    names = {x for x in sys.argv[2].split(",") if x}
+    OUT = sys.argv[3]
+    A.call_event("call", op="prune", n=len(names))
+    ResultsAggregator.load(OUT).clear_results_for_resubmission(names)
+    A.call_event("ret", op="prune", n=len(names))
 else:
     c, rounds = int(sys.argv[2]), int(sys.argv[3])
     agg = ResultsAggregator.load(OUT)
